@@ -1063,4 +1063,152 @@ example : userConfigPath { vars := [("XDG_CONFIG_HOME", "cfg/user")] } = "cfg/us
       ["cfg/site/pypyr/config.yaml", "/S/c2/pypyr/config.yaml"] := by
   decide +kernel
 
+/-! ### 15. Every file's mapping is a function of its text alone (parser state between loads)
+
+    `Files` hands the model "the payload of each file". Sections 2 and 3 say who wins among PAYLOADS. Here the
+    payloads are what one pass of a parser with hidden state (`TextLoader`) makes of the TEXTS; under the
+    assumption `TextOnly` the winner's value is what the winning file states WHEN LOADED ALONE, whatever the texts
+    of the other files are and whatever state an earlier `init()` left the parser in; without the assumption it
+    is not (`sticky_parser_breaks_it`): the assumption is what the harness stream `rawyaml` tests. -/
+
+theorem loadSeq_paths {σ τ : Type} (L : TextLoader σ τ) (s : σ) (ts : List (String × τ)) :
+    (loadSeq L s ts).1.map (·.1) = ts.map (·.1) := by
+  induction ts generalizing s with
+  | nil => rfl
+  | cons pt rest ih => obtain ⟨p, t⟩ := pt; simp [loadSeq, ih]
+
+/-- **Under `TextOnly` a pass over the files is every file loaded alone**, from whatever parser state it starts. -/
+theorem loadSeq_textOnly {σ τ : Type} (L : TextLoader σ τ) (h : L.TextOnly) (s : σ) (ts : List (String × τ)) :
+    (loadSeq L s ts).1 = loadAlone L ts := by
+  induction ts generalizing s with
+  | nil => rfl
+  | cons pt rest ih =>
+    obtain ⟨p, t⟩ := pt
+    simp only [loadSeq, loadAlone, List.map_cons]
+    rw [h s t, ih]; rfl
+
+/-- **effective = overlay of `alone (text f)`.** The effective configuration is the overlay of the files loaded
+    alone – independent of the parser state the pass starts in (a second `init()`, an earlier `load_yaml`). -/
+theorem effective_is_overlay_of_alone {σ τ : Type} (L : TextLoader σ τ) (h : L.TextOnly) (st : ConfigState) (s : σ)
+    (ts : List (String × τ)) : effective L st s ts = applyAll st (loadAlone L ts) := by
+  unfold effective; rw [loadSeq_textOnly L h]
+
+/-- **scalar: the winning file alone decides.** `(p, t)` is the highest-precedence file that sets `k` (loaded alone
+    it states `v`; no higher file, loaded alone, sets `k`): the effective value is `v` – for EVERY choice of the
+    lower files' texts, of the other higher files' texts and of the starting parser state. -/
+theorem effective_scalar_is_what_winner_states_alone {σ τ : Type} (L : TextLoader σ τ) (h : L.TextOnly)
+    (st st' : ConfigState) (s : σ) (lower higher : List (String × τ)) (p : String) (t : τ) (k : String) (v d : Val)
+    (hd : st.scalar? k = some d)
+    (hv : settingOf (L.alone t) k = some v) (hhi : ∀ q ∈ higher, settingOf (L.alone q.2) k = none)
+    (hok : effective L st s (lower ++ (p, t) :: higher) = (st', none)) :
+    st'.scalar? k = some v := by
+  rw [effective_is_overlay_of_alone L h] at hok
+  rw [scalar_highest_wins_list st st' _ hok k d hd]
+  have : highest k ((loadAlone L (lower ++ (p, t) :: higher)).map (·.2)) = some v := by
+    rw [highest_spec]
+    refine ⟨(loadAlone L lower).map (·.2), L.alone t, (loadAlone L higher).map (·.2), ?_, hv, ?_⟩
+    · simp [loadAlone]
+    · intro q hq
+      simp only [loadAlone, List.map_map, List.mem_map, Function.comp] at hq
+      obtain ⟨x, hx, rfl⟩ := hq
+      exact hhi x hx
+  rw [this]; rfl
+
+/-- **Changing lower-precedence texts to anything changes nothing**: two configurations that agree on the winning
+    file and in which no higher file sets `k` agree on `k`, whatever their other files say and whatever states
+    the two passes start in. -/
+theorem effective_scalar_independent_of_other_texts {σ τ : Type} (L : TextLoader σ τ) (h : L.TextOnly)
+    (st st1 st2 : ConfigState) (s1 s2 : σ) (lower1 lower2 higher1 higher2 : List (String × τ)) (p : String) (t : τ)
+    (k : String) (v d : Val) (hd : st.scalar? k = some d) (hv : settingOf (L.alone t) k = some v)
+    (h1 : ∀ q ∈ higher1, settingOf (L.alone q.2) k = none) (h2 : ∀ q ∈ higher2, settingOf (L.alone q.2) k = none)
+    (ok1 : effective L st s1 (lower1 ++ (p, t) :: higher1) = (st1, none))
+    (ok2 : effective L st s2 (lower2 ++ (p, t) :: higher2) = (st2, none)) :
+    st1.scalar? k = st2.scalar? k := by
+  rw [effective_scalar_is_what_winner_states_alone L h st st1 s1 lower1 higher1 p t k v d hd hv h1 ok1,
+      effective_scalar_is_what_winner_states_alone L h st st2 s2 lower2 higher2 p t k v d hd hv h2 ok2]
+
+/-- **vars / shortcuts: the same key-wise.** -/
+theorem effective_dict_is_what_winner_states_alone {σ τ : Type} (L : TextLoader σ τ) (h : L.TextOnly)
+    (st st' : ConfigState) (s : σ) (lower higher : List (String × τ)) (p : String) (t : τ) (name : String) (key v : Val)
+    (d0 : Dict) (h0 : st.dict? name = some d0)
+    (hv : dictSettingOf (L.alone t) name key = some v) (hhi : ∀ q ∈ higher, dictSettingOf (L.alone q.2) name key = none)
+    (hok : effective L st s (lower ++ (p, t) :: higher) = (st', none)) :
+    ∃ d', st'.dict? name = some d' ∧ dictGet? d' key = some v := by
+  rw [effective_is_overlay_of_alone L h] at hok
+  obtain ⟨d', hd', hk⟩ := dict_union_precedence_list st st' _ hok name d0 h0
+  refine ⟨d', hd', ?_⟩
+  have : highestDict name key ((loadAlone L (lower ++ (p, t) :: higher)).map (·.2)) = some v := by
+    rw [highestDict_spec]
+    refine ⟨(loadAlone L lower).map (·.2), L.alone t, (loadAlone L higher).map (·.2), ?_, hv, ?_⟩
+    · simp [loadAlone]
+    · intro q hq
+      simp only [loadAlone, List.map_map, List.mem_map, Function.comp] at hq
+      obtain ⟨x, hx, rfl⟩ := hq
+      exact hhi x hx
+  rw [hk key, this]; rfl
+
+/-- **Two `init()`s of one process**: under `TextOnly` the second is the overlay of its files loaded alone over what
+    the first left – the parser state the first pass ended in does not matter. -/
+theorem effectiveTwice_textOnly {σ τ : Type} (L : TextLoader σ τ) (h : L.TextOnly) (st st1 : ConfigState)
+    (ts1 ts2 : List (String × τ)) (h1 : applyAll st (loadAlone L ts1) = (st1, none)) :
+    effectiveTwice L st ts1 ts2 = applyAll st1 (loadAlone L ts2) := by
+  unfold effectiveTwice
+  rw [loadSeq_textOnly L h, h1]
+  exact effective_is_overlay_of_alone L h st1 _ ts2
+
+/-- **parser_per_load_agrees (static tie).** In the source, the object whose `.load(file)` parses a yaml config file is
+    built inside `load_yaml`, once per call (`perCallParser`): nothing of it survives the call. (What the ruamel classes
+    keep at class / module level is not visible to this tie: that is what the harness stream `rawyaml` is for.) -/
+theorem parser_per_load_agrees :
+    Generated.ConfigProps.yamlParserOrigin = ["parser = ruamel.yaml.YAML()"] := by decide
+
+/-- `load_yaml` as it is (a parser per call) satisfies the assumption: the hypotheses are satisfiable. -/
+theorem perCallParser_textOnly : perCallParser.TextOnly := fun _ _ => rfl
+
+/-- One parser object kept between loads does not. -/
+theorem stickyParser_not_textOnly : ¬ stickyParser.TextOnly := by
+  intro h
+  have := h .v11 ⟨none, [("default_group", "on")], []⟩
+  revert this; decide
+
+/-- the user file starts with `%YAML 1.1` and sets only the date format; the local file (no directive) says
+    `default_group: on`, `vars: {mode: 0777, answer: no}` -/
+def exTexts : List (String × CfgText) :=
+  [("/S/xh/pypyr/config.yaml", ⟨some .v11, [("log_date_format", "%H:%M")], []⟩),
+   ("pypyr-config.yaml", ⟨none, [("default_group", "on")], [("mode", "0777"), ("answer", "no")]⟩)]
+
+/-- the same with the directive in the HIGHEST file only, and a second `init()` over the same files -/
+def exTextsHigh : List (String × CfgText) :=
+  [("/S/xh/pypyr/config.yaml", ⟨none, [("default_group", "on")], [("mode", "0777")]⟩),
+   ("pypyr-config.yaml", ⟨some .v11, [("json_indent", "1_000")], []⟩)]
+
+/-- **sticky_parser_breaks_it (the assumption is load-bearing).** With the parser per call the local file's settings
+    are what it states alone (`"on"`, 777, `"no"`); with ONE parser object the `%YAML 1.1` of the lower-precedence
+    user file re-reads them (True, 511, False) – although each file loaded alone gives the same payloads for both. -/
+theorem sticky_parser_breaks_it :
+    loadAlone stickyParser exTexts = loadAlone perCallParser exTexts ∧
+    (effective perCallParser (defaults exEnv) () exTexts).2 = none ∧
+    (effective stickyParser (defaults exEnv) .v12 exTexts).2 = none ∧
+    (effective perCallParser (defaults exEnv) () exTexts).1.scalar? "default_group" = some (.str "on") ∧
+    (effective stickyParser (defaults exEnv) .v12 exTexts).1.scalar? "default_group" = some (.bool true) ∧
+    (effective perCallParser (defaults exEnv) () exTexts).1.dict? "vars" = some [(.str "mode", .int 777), (.str "answer", .str "no")] ∧
+    (effective stickyParser (defaults exEnv) .v12 exTexts).1.dict? "vars" = some [(.str "mode", .int 511), (.str "answer", .bool false)] := by
+  decide +kernel
+
+/-- The directive in the highest file only: one `init()` is fine even with the sticky parser, the SECOND `init()` of
+    the process is not (the lower file is re-read by yaml 1.1) – histories are needed to see it. -/
+theorem sticky_parser_leaks_into_next_init :
+    (effective stickyParser (defaults exEnv) .v12 exTextsHigh).1.scalar? "default_group" = some (.str "on") ∧
+    (effectiveTwice stickyParser (defaults exEnv) exTextsHigh exTextsHigh).1.scalar? "default_group" = some (.bool true) ∧
+    (effectiveTwice perCallParser (defaults exEnv) exTextsHigh exTextsHigh).1.scalar? "default_group" = some (.str "on") := by
+  decide +kernel
+
+-- the hypotheses of `effective_scalar_is_what_winner_states_alone` are satisfiable (per-call parser, `exTexts`)
+example : effective perCallParser (defaults exEnv) () ([exTexts[0]] ++ exTexts[1] :: []) =
+      ((effective perCallParser (defaults exEnv) () exTexts).1, none) ∧
+    settingOf (perCallParser.alone exTexts[1].2) "default_group" = some (.str "on") ∧
+    (defaults exEnv).scalar? "default_group" = some (.str "steps") ∧
+    (effective perCallParser (defaults exEnv) () exTexts).1.scalar? "default_group" = some (.str "on") := by
+  decide +kernel
+
 end Pypyr.C20
